@@ -17,11 +17,19 @@ type Chooser struct {
 	choices []int
 	ns      []int
 	names   []string
+	free    []bool
 }
 
 // Choose returns a value in [0,n). n must be ≥ 1. While replaying a prefix an out-of-range
 // recorded answer is a hard error: it means the driver is not deterministic.
-func (c *Chooser) Choose(name string, n int) int {
+func (c *Chooser) Choose(name string, n int) int { return c.choose(name, n, false) }
+
+// ChooseFree is Choose for a point whose non-default answers do not count as deviations
+// (for a scheduler: picking a thread when the running one is blocked or finished is not a
+// preemption).
+func (c *Chooser) ChooseFree(name string, n int) int { return c.choose(name, n, true) }
+
+func (c *Chooser) choose(name string, n int, free bool) int {
 	if n < 1 {
 		panic(fmt.Sprintf("mc: Choose(%q, %d)", name, n))
 	}
@@ -36,6 +44,7 @@ func (c *Chooser) Choose(name string, n int) int {
 	c.choices = append(c.choices, v)
 	c.ns = append(c.ns, n)
 	c.names = append(c.names, name)
+	c.free = append(c.free, free)
 	return v
 }
 
@@ -86,16 +95,20 @@ func Enumerate(bound int, stop func() bool, gen func(c *Chooser)) (runs int, com
 		if len(c.choices) < len(prefix) {
 			panic("mc: driver met fewer choice points than the prefix it was given")
 		}
-		if bound >= 0 && dev >= bound {
-			return
-		}
-		choices, ns := c.choices, c.ns
+		choices, ns, free := c.choices, c.ns, c.free
 		for i := len(prefix); i < len(choices); i++ {
+			cost := 1
+			if free[i] {
+				cost = 0
+			}
+			if bound >= 0 && dev+cost > bound {
+				continue
+			}
 			for alt := 1; alt < ns[i]; alt++ {
 				np := make([]int, i+1)
 				copy(np, choices[:i])
 				np[i] = alt
-				rec(np, dev+1)
+				rec(np, dev+cost)
 				if !complete {
 					return
 				}
